@@ -137,8 +137,10 @@ def run(rep, tier, rng):
         a, b, x = shapes.gen_ctor(rng, t1, "small", True, 1, 2), shapes.gen_ctor(rng, t1, "small", True, 2, 3), shapes.gen_ctor(rng, t2, "small", True, 1, 2)
         # "p": a shape written through the bare ShapeWriter before it is wrapped into the complete writer
         # (`Writer::new` accepts a writer that already holds a type)
-        for h in (["a", "x"], ["a", "x", "b"], ["a", "b", "x", "x", "a"], ["p", "x", "a", "b"], ["p", "p", "a", "x", "b"]):
-            calls = [(3 if ch == "p" else 0, a if ch in "ap" else b if ch == "b" else x) for ch in h]
+        # "X": a pair of the other type inside the collection handed to the bulk helper `write_shapes_and_records` at the end
+        for h in (["a", "x"], ["a", "x", "b"], ["a", "b", "x", "x", "a"], ["p", "x", "a", "b"], ["p", "p", "a", "x", "b"],
+                  ["a", "X"], ["a", "b", "X", "X"], ["p", "X"]):
+            calls = [(3 if ch == "p" else 5 if ch == "X" else 0, a if ch in "ap" else b if ch == "b" else x) for ch in h]
             pcases.append(C08.pair_case(calls, pops))
             pmeta.append((h, t1, t2))
     pimpl = stages.correspondence(rep, "pair", dev, pcases, "pair(rejected shape through the complete writer)", vm_sample=30)
@@ -150,6 +152,8 @@ def run(rep, tier, rng):
             res = C08.parse_pair(r, len(h), pops)
             n_ok = sum(1 for ch in h if ch in "ab")
             n_pre = sum(1 for ch in h if ch == "p")
+            if "X" in h:
+                h = h[:h.index("X")] + ["x"]           # the whole bulk is one call: refused at its first pair
             for j, ch in enumerate(h):
                 want = ("err", 8, t1, t2) if ch == "x" else ("ok",)
                 if res["results"][j] != want:
